@@ -53,7 +53,7 @@ func init() {
 						}
 					},
 					Run:      func(c *runner.Ctx, i int) { valueCase(c, i, m) },
-					Required: []string{"marshal_ok", "roundtrips", "nested_types", "large_collections", "marshal_results_rechecked", "udt_redefinitions"},
+					Required: []string{"marshal_ok", "roundtrips", "nested_types", "large_collections", "marshal_results_rechecked", "udt_redefinitions", "zero_padded_integer_strings"},
 				}}
 			},
 		}
@@ -331,6 +331,11 @@ func valueCase(c *runner.Ctx, i int, m valMode) {
 		if !ok {
 			c.Add("not_representable_in_source_form", 1)
 			continue
+		}
+		if sf.kind == "intstring" && gv.Kind() == reflect.String {
+			if ss := strings.TrimPrefix(gv.String(), "-"); len(ss) > 1 && ss[0] == '0' {
+				c.Add("zero_padded_integer_strings", 1)
+			}
 		}
 		inRange := inRangeDeep(t, v)
 		ref, refErr := cqlref.EncodeValue(t, v, proto)
